@@ -15,3 +15,11 @@ Definition run_bitemp (c : list version * list (option Z * Z) * option version) 
   JL [J_reads st reads;
       match again with Some v => J_reads (bi_merge st (Bi v)) reads | None => JL [] end;
       JL (map (fun r => JL [JZ (rd r); JZ (rs r); J_val (rv r)]) st)].
+
+(* the same with the history given as groups of versions, each group merged by one bi_merge call *)
+Definition run_bitemp_g (c : list (list version) * list (option Z * Z) * option version) : J :=
+  let '(gs, reads, again) := c in
+  let st := store_of_groups gs in
+  JL [J_reads st reads;
+      match again with Some v => J_reads (bi_merge st (Bi v)) reads | None => JL [] end;
+      JL (map (fun r => JL [JZ (rd r); JZ (rs r); J_val (rv r)]) st)].
